@@ -142,21 +142,26 @@ Step ==
             /\ own' = [own EXCEPT ![t] = NoArena] /\ ofirst' = [ofirst EXCEPT ![t] = 0]
             /\ owners' = owners \ {t}
             /\ UNCHANGED <<mpeak, ids, pend, expFrees, lids, on, lch>> /\ Report({})
-      [] k \in {"drop_post", "drop_done"} ->   \* ownership has ended at the latest now (also if the drop_cs hook event is missing)
+      [] k \in {"drop_post", "drop_done"} ->
+            \* Normally ownership ended at drop_cs.  If that hook event is missing (a drop path that bypasses the
+            \* instrumented lock) the position of these thread-local events relative to other threads is unknown
+            \* (they are placed as early as possible): for exclusivity the arena counts as given back from here on,
+            \* for the peak the thread stays an owner (until its next drop_cs or the end of the phase) -- each clause
+            \* errs on the side that cannot raise a false alarm.
             /\ own' = [own EXCEPT ![t] = NoArena] /\ ofirst' = [ofirst EXCEPT ![t] = 0]
-            /\ owners' = owners \ {t}
-            /\ UNCHANGED <<mpeak, ids, pend, expFrees, lids, on, lch>> /\ Report({})
+            /\ UNCHANGED <<owners, mpeak, ids, pend, expFrees, lids, on, lch>> /\ Report({})
       [] k = "forget" ->       \* mem::forget(guard): the arena is never handed out again, its owner count stays
             /\ own' = [own EXCEPT ![t] = NoArena] /\ ofirst' = [ofirst EXCEPT ![t] = 0]
             /\ owners' = owners \ {t}
             /\ lids' = lids \cup {ev.arena}
             /\ lch' = [a \in DOMAIN lch \cup {ev.arena} |-> IF a = ev.arena THEN on[t] ELSE lch[a]]   \* its chunks, for ever
             /\ UNCHANGED <<mpeak, ids, pend, expFrees, on>> /\ Report({})
-      [] k = "check" ->
-            /\ UNCHANGED <<own, ofirst, owners, mpeak, ids, pend, expFrees, lids, on, lch>>
+      [] k = "check" ->        \* the owner of the pool has `&mut self`: no guard is alive
+            /\ owners' = {}
+            /\ UNCHANGED <<own, ofirst, mpeak, ids, pend, expFrees, lids, on, lch>>
             /\ Report((IF ev.damaged = <<>> /\ ev.ledger.total_frees = expFrees /\ LedgerClean(ev.ledger)
                           THEN {} ELSE {"intact"})
-                      \cup (IF NoDup(ev.idle) /\ (owners = {} => SeqSet(ev.idle) \subseteq ids \ lids) THEN {} ELSE {"exclusive"})
+                      \cup (IF NoDup(ev.idle) /\ SeqSet(ev.idle) \subseteq ids \ lids THEN {} ELSE {"exclusive"})
                       \cup (IF ReuseC(Len(ev.idle), mpeak) /\ ReuseC(Cardinality(ids), mpeak) THEN {} ELSE {"reuse"}))
       [] k = "pool_reset" ->
             /\ expFrees' = ev.ledger.total_frees
